@@ -223,3 +223,27 @@ C.contract(
 
 C.assume('str and bytes are both sequences; the proof is over z3 String and does not depend on the element type')
 C.assume('the pieces are consumed by the caller (generator laziness is not modelled: the function is the sequence of its yields)')
+
+
+# ---- determine_quote_strategy: which quote character a literal gets (C02) -----------------------------------------------------
+count_f = z3.Function('count_occurrences', z3.StringSort(), z3.StringSort(), z3.IntSort())
+
+
+def _count(I, s, q):
+    q = I.coerce(q, 'Str')
+    n = count_f(s, q)
+    I.assume(n >= 0)
+    I.assume((n > 0) == z3.Contains(s, q))          # str.count(q) > 0 iff q in s (q non-empty): definitional
+    return n
+
+
+U.method_hooks[('Str', 'count')] = lambda I, obj, args, kwargs, node: _count(I, obj, args[0])
+_interp.BUILTINS['count_'] = lambda I, a, k, n: _count(I, I.coerce(a[0], 'Str'), a[1])
+
+C.contract(
+    PP, 'determine_quote_strategy', params={'s': 'Str'}, returns='Str',
+    requires=['isinstance(s, str) or isinstance(s, bytes)'],
+    ensures=[('a-quote-character', 'result == "\'" or result == \'"\''),
+             ('single-unless-it-costs-more-escapes', 'implies(result == "\'", count_(s, "\'") <= count_(s, \'"\'))'),
+             ('double-only-when-strictly-cheaper', 'implies(result == \'"\', count_(s, \'"\') < count_(s, "\'"))')],
+    serves=['C02'])
